@@ -270,7 +270,28 @@ pub fn scratch_root() -> PathBuf {
     base.join(format!("verif-{}", std::process::id()))
 }
 
+/// A killed earlier process can leave its scratch directory behind, and process ids are
+/// reused: start from an empty directory, and drop the leftovers of processes that are gone.
+fn scratch_init() {
+    static INIT: std::sync::Once = std::sync::Once::new();
+    INIT.call_once(|| {
+        let root = scratch_root();
+        force_remove(&root);
+        if let Some(base) = root.parent() {
+            for e in std::fs::read_dir(base).into_iter().flatten().flatten() {
+                let name = e.file_name().to_string_lossy().to_string();
+                if let Some(pid) = name.strip_prefix("verif-").and_then(|p| p.parse::<u32>().ok()) {
+                    if !Path::new(&format!("/proc/{pid}")).exists() {
+                        force_remove(&e.path());
+                    }
+                }
+            }
+        }
+    });
+}
+
 fn new_case_dir() -> PathBuf {
+    scratch_init();
     let n = SCRATCH_COUNTER.fetch_add(1, Ordering::Relaxed);
     // three levels deep so that a path-escape bug cannot reach anything real
     let d = scratch_root().join(format!("c{n}")).join("x").join("y");
@@ -641,7 +662,7 @@ where
             });
             match result {
                 Ok(()) => {}
-                Err(TestError::Fail(_reason, case)) => {
+                Err(TestError::Fail(reason, case)) => {
                     // Re-run the minimal case to get its failure record.
                     let (r, _cx) = self.run_one(&case, args.tier, &known, false, None, Some(&watch));
                     let cj = serde_json::to_value(&case).unwrap();
@@ -649,7 +670,10 @@ where
                         Err(f) => f,
                         Ok(()) => Failure::new(
                             format!("{}/flaky", self.id),
-                            "shrunk case passed when re-run: nondeterministic failure".to_string(),
+                            format!(
+                                "shrunk case passed when re-run: nondeterministic failure; \
+                                 the failing run reported: {reason}"
+                            ),
                         ),
                     };
                     let replay = write_replay(self.id, args.seed, &f, &cj);
@@ -738,6 +762,7 @@ pub fn run_parent(prop: &dyn PropDyn, tier: Tier, seed: u64, nworkers: u32) -> P
     let id = prop.id();
     let exe = std::env::current_exe().expect("current exe");
     let mut children = Vec::new();
+    scratch_init();
     let logdir = scratch_root();
     std::fs::create_dir_all(&logdir).expect("create log dir");
     let debug = std::env::var("VERIF_DEBUG").is_ok();
